@@ -49,6 +49,7 @@ type verifWriter struct {
 	n      int
 	failAt int
 	failed bool
+	err    error // the error a refused write returns (nil: errVerifWrite)
 }
 
 func newVerifWriter() *verifWriter { return &verifWriter{failAt: -1} }
@@ -64,6 +65,9 @@ func (w *verifWriter) Write(p []byte) (int, error) {
 	if w.n == w.failAt {
 		w.n++
 		w.failed = true
+		if w.err != nil {
+			return 0, w.err
+		}
 		return 0, errVerifWrite
 	}
 	w.n++
@@ -205,3 +209,15 @@ func nodeRel(nodes []vNode, i int) []string {
 	return append(nodeRel(nodes, nodes[i].parent), nodes[i].name)
 }
 
+
+func sameElems(a, b []string) bool {
+	if len(a) != len(b) {
+		return false
+	}
+	for i := range a {
+		if a[i] != b[i] {
+			return false
+		}
+	}
+	return true
+}
